@@ -395,6 +395,7 @@ def norm_block(stmts: list) -> list:
     unrolled = []
     for s in stmts:
         if isinstance(s, ast.For) and not s.orelse and isinstance(s.iter, (ast.Tuple, ast.List)) and 1 <= len(s.iter.elts) <= 8 \
+                and not any(isinstance(x, ast.Starred) for x in s.iter.elts) \
                 and not any(isinstance(n, (ast.Break, ast.Continue)) for b in s.body for n in ast.walk(b)):
             tnames = [t.id for t in s.target.elts] if isinstance(s.target, ast.Tuple) and all(isinstance(t, ast.Name) for t in s.target.elts) else \
                 ([s.target.id] if isinstance(s.target, ast.Name) else None)
